@@ -155,7 +155,7 @@ def run(ctx, part):
     preds = ["cmp", "cmp_abs", "bits", "ham", "is_even", "is_zero", "sign", "get_dig", "set_dig", "zero"]
     divs = ["div", "div_rem"]
     allops = binops * 3 + unops * 2 + digops * 2 + shifts * 2 + preds + divs * 8
-    N = ctx.n(40000, 600000)
+    N = ctx.n(25000, 600000)
 
     def nd(v):
         return max(1, (abs(v).bit_length() + W - 1) // W)
